@@ -8,7 +8,9 @@ import (
 	"os"
 	"sort"
 	"strings"
+	"sync"
 	"testing"
+	"time"
 
 	"github.com/cometbft/cometbft/abci/types"
 	"pgregory.net/rapid"
@@ -36,13 +38,14 @@ func txResultKey(r types.ResponseDeliverTx) string {
 const rule = "case = generated production-mode genesis (2-5 staked entities with 1-2 validator nodes, users, delegations, fees, rewards, slashing, governance, optional vault; both voting-power distributions) + 8-40 blocks (quick) of generated " +
 	"transactions of every buildable method (valid or with one aspect invalidated), votes, evidence, time gaps; 3-4 replicas on both backends (memory / disk, pruning keep-N, different local MinGasPrice, validator and observer identities); " +
 	"per block each replica gets a generated execution path (propose+cached, process-proposal, process-another-proposal-first, plain replay) and disk-backed replicas are restarted at generated heights; one replica receives harness-scheduled " +
-	"side traffic between ABCI calls (CheckTx new/recheck of arbitrary generated transactions, EstimateGas, committed-state reads). oracle = at every height all replicas agree byte-for-byte on AppHash, on every transaction's code/codespace/data/gas, " +
+	"side traffic between ABCI calls (CheckTx new/recheck of arbitrary generated transactions, EstimateGas, committed-state reads, historical queries at earlier heights) and in a third of the cases a real goroutine that estimates gas and queries historical state during the whole block including Commit (CheckTx is serialised with the other ABCI calls by CometBFT's local client, so only its interleaving BETWEEN calls exists). oracle = at every height all replicas agree byte-for-byte on AppHash, on every transaction's code/codespace/data/gas, " +
 	"on validator updates as a set, every non-proposer ACCEPTs the proposal, and nobody fails alone. non-trivial = >=2 distinct paths AND (a restart or a cached proposer block) AND >=1 epoch transition AND >=3 successful non-refresh transactions; " +
 	"distinct = hash of genesis spec, blocks and path assignment"
 
 type sideAction struct {
 	stage int
-	kind  int // 0 CheckTx new, 1 CheckTx recheck, 2 EstimateGas, 3 state dump
+	kind  int // 0 CheckTx new, 1 CheckTx recheck, 2 EstimateGas, 3 state dump, 4 historical query at a generated earlier height
+	back  int64
 	tx    []byte
 }
 
@@ -109,6 +112,8 @@ func TestC01Determinism(t *testing.T) {
 			rec.Label("traffic:gov")
 		}
 		noisy := rapid.IntRange(0, nrep-1).Draw(t, "noisy")
+		bgTraffic := rapid.IntRange(0, 2).Draw(t, "bgTraffic") == 0
+		bgCalls := 0
 		nblocks := rapid.IntRange(8, ev.Pick(40, 150)).Draw(t, "nblocks")
 		pathsUsed := map[chain.Path]bool{}
 		restarts, cachedBlocks, epochTransitions, okTxs := 0, 0, 0, 0
@@ -174,7 +179,7 @@ func TestC01Determinism(t *testing.T) {
 			var sides []sideAction
 			ns := rapid.IntRange(0, 5).Draw(t, "nside")
 			for i := 0; i < ns; i++ {
-				sa := sideAction{stage: rapid.IntRange(0, len(b.Full)+3).Draw(t, "sideStage"), kind: rapid.IntRange(0, 3).Draw(t, "sideKind")}
+				sa := sideAction{stage: rapid.IntRange(0, len(b.Full)+3).Draw(t, "sideStage"), kind: rapid.IntRange(0, 4).Draw(t, "sideKind"), back: int64(rapid.IntRange(0, 4).Draw(t, "sideBack"))}
 				if len(bg.Txs) > 0 {
 					sa.tx = bg.Txs[rapid.IntRange(0, len(bg.Txs)-1).Draw(t, "sideTx")].Raw
 				} else {
@@ -211,8 +216,13 @@ func TestC01Determinism(t *testing.T) {
 									if cborUnmarshal(sa.tx, &st) == nil && cborUnmarshal(st.Blob, &tx) == nil {
 										_, _ = rr.Srv.EstimateGas(st.Signature.PublicKey, &tx)
 									}
-								default:
+								case 3:
 									_, _ = chain.DumpCommitted(rr)
+								default:
+									// historical query (pruned heights answer "version not found")
+									if h := b.Height - 1 - sa.back; h >= 1 {
+										_, _ = chain.DumpAtVersion(rr, h)
+									}
 								}
 							})
 						}
@@ -222,7 +232,41 @@ func TestC01Determinism(t *testing.T) {
 				if path == chain.PathPropose {
 					execPath = chain.PathProcess // ProcessProposal of its own proposal reuses the cached results
 				}
+				// truly concurrent traffic: what a node serves over gRPC while blocks execute is NOT serialised with the ABCI
+				// calls (CheckTx is: CometBFT's local ABCI client holds one mutex for all connections) - gas estimation and
+				// historical state queries run from a real goroutine during the whole block, Commit included
+				var wg sync.WaitGroup
+				stop := make(chan struct{})
+				if i == noisy && bgTraffic {
+					rr, txs, hh := r, bg.Txs, b.Height
+					wg.Add(1)
+					go func() {
+						defer wg.Done()
+						for n := 0; ; n++ {
+							select {
+							case <-stop:
+								return
+							default:
+							}
+							_ = chain.Call(func() {
+								if n%2 == 0 && len(txs) > 0 {
+									var st transaction.SignedTransaction
+									var tx transaction.Transaction
+									if cborUnmarshal(txs[(n/2)%len(txs)].Raw, &st) == nil && cborUnmarshal(st.Blob, &tx) == nil {
+										_, _ = rr.Srv.EstimateGas(st.Signature.PublicKey, &tx)
+									}
+								} else if h := hh - 1 - int64(n%4); h >= 1 {
+									_, _ = chain.DumpAtVersion(rr, h)
+								}
+							})
+							bgCalls++
+						time.Sleep(200 * time.Microsecond) // (pacing only: the schedule is not part of the case)
+						}
+					}()
+				}
 				outs[i] = sim.E.ExecuteWithSide(r, b, execPath, other, side)
+				close(stop)
+				wg.Wait()
 				outs[i].Path = path
 			}
 			// ---- oracle
@@ -289,6 +333,10 @@ func TestC01Determinism(t *testing.T) {
 			rec.Label("cached-proposer-block")
 		}
 		rec.LabelN("epoch-transitions", uint64(epochTransitions))
+		if bgTraffic {
+			rec.Label("concurrent-query-goroutine")
+			rec.LabelN("concurrent-query-calls", uint64(bgCalls))
+		}
 		rec.LabelN("blocks", uint64(nblocks))
 		var sample any
 		if nt && rec.WantSample() {
